@@ -432,7 +432,13 @@ public:
                                    unsigned int prec)
     {
         const Coeff c(Series::find_cf(s, var, 0));
-        return Series::acos(c) - series_asin(s - c, var, prec);
+        // acos(s) = acos(c) - integrate(diff(s) / sqrt(1 - s**2))
+        const Poly t(1 - Series::pow(s, 2, prec - 1));
+        return Series::acos(c)
+               - Series::integrate(Series::diff(s, var)
+                                       * Series::series_nthroot(t, -2, var,
+                                                                prec - 1),
+                                   var);
     }
 
     static inline Poly _series_cos(const Poly &s, unsigned int prec)
